@@ -5,8 +5,8 @@ put under contract.  D = deductive (all inputs of the declared domain, all paths
   progression.py
     G4  B  format_iso8601 / parse_iso8601 round trip on 10^4 real datetimes (incl. microseconds, tz-aware and naive) and of whole
            HandlerState objects through the JSON wire format -- the trusted pair of G1 / G5 (third-party iso8601 + datetime: bounded).
-    G5  D  HandlerState.for_storage / as_in_storage / from_scratch; from_storage(for_storage(s)) preserves every recorded field;
-           a reloaded unchanged state equals its origin.
+    G5  D  HandlerState.for_storage / as_in_storage / from_scratch / as_active / with_purpose.
+    G5r D  from_storage(for_storage(s)) preserves every recorded field; a reloaded unchanged state equals its origin.
     G6  D  State.from_storage (reads exactly the owned ids; restart independence), State.store (exactly the changed states, then
            flush), State.purge (owned ids + state ids + subrefs, nothing else).
     G7  D  State.extras / counts / without_successes.
@@ -1187,15 +1187,18 @@ def _e6(vc, methods, configs=(0, 1, 2)):
     if method == 'clear':
         essence = draw_obj(vc, 'essence', allkeys + ('metadata', 'annotations', 'labels'))
         wf_path(vc, essence, field, 'no non-mapping on the storage path of the essence')
+        wf_path(vc, essence, touch_field, 'no non-mapping on the touch path of the essence')
         assume_metadata_mapping(vc, essence)
         before = jt(essence)
         ld = vc.load(PROGRESS, 'StatusProgressStorage.clear',
                      stubs=dict(stubs, super=super_stub(clear=lambda essence: copy_of(essence))))
         res = ld.fn(Shadow(st, {'remove_empty_stanzas': stanzas_by_contract(vc)}), essence=essence)
         _, removed = spec_remove(before, field)
+        _, removed = spec_remove(removed, touch_field)        # since the fix of F-C04-4 (repo 61b56d4): the touch field too
         vc.ensure('clear_exact', holds(vc, jt(res) == spec_stanzas(removed)))
         vc.ensure('clear_exact', holds(vc, jt(essence) == before))
         vc.ensure('clear_exact', holds(vc, J.is_JAbsent(value_or_absent(jt(res), field))))
+        vc.ensure('clear_exact', holds(vc, J.is_JAbsent(value_or_absent(jt(res), touch_field))))
         vc.canary('canary.clear_is_identity', holds(vc, jt(res) == before))
         return ('clear', cfg)
     raw = draw_obj(vc, 'body', allkeys)
@@ -1210,8 +1213,8 @@ def _e6(vc, methods, configs=(0, 1, 2)):
         got = jt(res) if outcome == 'return' else J.JAbsent
         vc.ensure('fetch_own_record', Implies(holds(vc, found_r), And(outcome == 'return', holds(vc, got == rec))))
         vc.ensure('fetch_no_data', Implies(holds(vc, z3.And(z3.Not(found_r), z3.Not(corrupted))), outcome == 'return' and res is None))
-        vc.ensure('fetch_corrupted_container_is_no_data', Implies(holds(vc, corrupted), outcome == 'return' and res is None),
-                  excuse={'F-C16-4': holds(vc, corrupted)})
+        # F-C16-4 (AttributeError on a non-mapping container; fixed in repo b7222de) was found by this clause
+        vc.ensure('fetch_corrupted_container_is_no_data', Implies(holds(vc, corrupted), outcome == 'return' and res is None))
         vc.ensure('body_untouched', holds(vc, jt(raw) == body0))
         vc.canary('canary.fetch_always_none', outcome == 'return' and res is None)
         return ('fetch', cfg, outcome)
@@ -1298,8 +1301,9 @@ def E6p(vc):
       purge_exact        body has the record: patch' == patch with <field>.<id> = null;  body has not, patch has: patch' == patch minus that
                          entry and the parents it emptied (a store pending in the same patch is cancelled);  neither: unchanged;
       purge_complete     hence after the merge-patch nothing is left at <field>.<id> (the record is null-ed or not mentioned);
-      clear_exact        the result equals the essence minus <field> (+ the parents emptied by that), then minus empty metadata.annotations /
-                         labels / metadata / status: nothing is left at <field>; the given essence is not modified;
+      clear_exact        the result equals the essence minus <field> and minus <touch_field> (+ the parents emptied by that), then minus empty
+                         metadata.annotations / labels / metadata / status: nothing of the storage's own writes is left (C04); the given essence is
+                         not modified;
       body_untouched     purge does not modify the body.
     """
     return _e6(vc, ['purge', 'clear'], configs=(0, 2))
